@@ -296,7 +296,10 @@ def run_formulas(formulas, vals, ctx, tag):
                 r.ev()
                 literal_only = not any(ch.isalpha() for ch in f.replace('TRUE', '').replace('FALSE', '')) and not any(
                     o in f for o in '+-*/%')
-                ok = outcome_matches(out, outs, exact=literal_only)
+                # a difference of nearly equal terms keeps only the round-off of the terms: judged to 1e-13 of the largest operand in sight
+                # (the accepted 15-digit normalisation of a percent operand moves a term by that much)
+                mags = [abs(v) for _, v in val if isinstance(v, (int, float)) and not isinstance(v, bool)] + [1.0]
+                ok = outcome_matches(out, outs, exact=literal_only, scale=0.0 if literal_only else max(mags))
                 case = {'formula': f, 'valuation': vi, 'overrides': val}
                 if not ok:
                     report(r, ID, classify(f, out), case, out.brief(), outs, monitor='operator-semantics',
